@@ -1158,3 +1158,24 @@ def run(ctx) -> None:  # noqa: F811
         ctx.require(got >= 2, f"{f.qualname}: the slice counter tests were not found")
 
     deferred.run(ctx, new, _inner_run_c08e)
+
+
+# ---- added after the seeded change C08-r4seed0: filters on the periodic potential grid wrap
+_inner_run_c08f = run
+
+FILTERWRAP_MODULES = ("abtem.integrals", "abtem.potentials.iam", "abtem.slicing")
+
+
+def run(ctx) -> None:  # noqa: F811
+    from ..rules import deferred, filterwrap
+
+    ctx.rule("R-FILTERWRAP", filterwrap.__doc__.split("\n\n", 1)[1])
+
+    def new():
+        funcs = [f for f in ctx.repo.all_functions() if f.module.name in FILTERWRAP_MODULES]
+        ctx.require(len(funcs) >= 40, "R-FILTERWRAP: the potential modules were not found")
+        n = filterwrap.check(ctx, "R-FILTERWRAP", funcs, lambda f: f.module.imports)
+        ctx.require(n >= 1, "R-FILTERWRAP: no ndimage filter found in the potential integrators (the thermal smearing "
+                    "of the quadrature integrator moved)")
+
+    deferred.run(ctx, new, _inner_run_c08f)
